@@ -258,6 +258,8 @@ class State:
             self.assume(conds[i])
             return i
         feas = [i for i in live if self.feasible(conds[i]) != "unsat"]
+        if os.environ.get("PYVC_DEBUG3") and len(feas) < len(live):
+            print("      prune: %s infeasible of %s" % ([str(conds[i])[:100] for i in live if i not in feas], len(live)))
         if not feas:
             raise PathEnd("infeasible")
         i = feas[0]
@@ -419,6 +421,7 @@ class Frame:
         self.cur_exc = None
         self.old_env = None
         self.top = parent is None
+        self.caller = None     # for inlined callees: the root frame of the function being verified
         self.loop_vars = {}    # IDX<n> / SEQ<n> of the enclosing loops (readable in invariants of inner loops)
 
     def lookup(self, name):
@@ -443,6 +446,13 @@ class Frame:
         f = self
         while f.parent is not None:
             f = f.parent
+        return f
+
+    def outermost(self):
+        """root frame of the function under verification (looks through inlined callees)"""
+        f = self.root()
+        while f.caller is not None:
+            f = f.caller.root()
         return f
 
 
@@ -869,6 +879,9 @@ class Ev:
                     for e in node.values:
                         t = self.cond(e)
                         ts.append(t)
+                        ts_s = z3.simplify(t)
+                        if (is_and and z3.is_false(ts_s)) or (not is_and and z3.is_true(ts_s)):
+                            break   # short-circuit on a constant: the remaining operands are never evaluated
                         self.guards.append(t if is_and else z3.Not(t))
                 finally:
                     del self.guards[saved:]
